@@ -12,6 +12,7 @@ class Grammar:
         self.order = [r["name"] for r in gj["rules"]]
         self._seq = {}
         self._endc = {}
+        self.unroll = 2          # iterations of an unbounded repetition that child_seqs enumerates beyond its minimum
 
     def ty(self, name):
         return self.rules[name]["ty"] if name in self.rules else "builtin"
@@ -137,7 +138,8 @@ class Grammar:
                 if c1:
                     # at end of line: the remainder must match empty or begin with a line break / EOI
                     if b_null:
-                        out.add((s1, True))
+                        for z in self._null_seqs(e["b"], stack):
+                            out.add((s1 + z, True))
                     if b_eol:
                         for s2, c2 in B:
                             out.add((s1 + s2, c2))
@@ -147,7 +149,8 @@ class Grammar:
                 # a COMMENT swallowed by the implicit skip between a and b (it runs to the end of the line)
                 if self.has_comment:
                     if b_null:
-                        out.add((s1 + cm, True))
+                        for z in self._null_seqs(e["b"], stack):
+                            out.add((s1 + cm + z, True))
                     if b_eol:
                         for s2, c2 in B:
                             out.add((s1 + cm + s2, c2))
@@ -159,7 +162,7 @@ class Grammar:
         if k == "rep":
             inner = self._seqs(e["e"], stack)
             lo = e["min"]
-            hi = e["max"] if e["max"] is not None else max(lo, 0) + 2
+            hi = e["max"] if e["max"] is not None else max(lo, 0) + self.unroll
             cur = {((), False)}
             out = set()
             if lo == 0:
@@ -180,6 +183,109 @@ class Grammar:
         if k == "push":
             return self._seqs(e["e"], stack)
         return {((), False)}
+
+    # ---- line-level language of a list rule: PEG acceptance of abstract words
+    def peg_accepts(self, name, word):
+        """Does rule `name` accept the abstract word (a list of line-level tokens)?  Tokens: 'N' for NEWLINE, 'COMMENT' for
+        an explicit COMMENT reference, the rule name for every other token-emitting rule; silent rules are expanded; SOI/EOI
+        test the position; "" matches empty and every other string terminal matches nothing.  Ordered choice and greedy
+        repetition are evaluated the way a PEG does (no back-tracking into a successful repetition/option)."""
+        n = len(word)
+        implicit = "COMMENT" in self.rules
+
+        def skip(pos):
+            # pest inserts its implicit skip after every `~` and between repetitions of a non-atomic rule
+            while implicit and pos < n and word[pos] == "COMMENT":
+                pos += 1
+            return pos
+
+        def go(e, pos, stack):
+            k = e["k"]
+            if k in ("str", "insens"):
+                return pos if e["s"] == "" else None
+            if k == "ident":
+                r = e["s"]
+                if r == "SOI":
+                    return pos if pos == 0 else None
+                if r == "EOI":
+                    return pos if pos == n else None
+                if r == "NEWLINE":
+                    return pos + 1 if pos < n and word[pos] == "N" else None
+                if r == "COMMENT":
+                    return pos + 1 if pos < n and word[pos] == "COMMENT" else None
+                if r not in self.rules or r in stack:
+                    return None
+                if self.rules[r]["ty"] == "silent":
+                    return go(self.rules[r]["expr"], pos, stack + (r,))
+                return pos + 1 if pos < n and word[pos] == r else None
+            if k == "seq":
+                m = go(e["a"], pos, stack)
+                return None if m is None else go(e["b"], skip(m), stack)
+            if k == "choice":
+                m = go(e["a"], pos, stack)
+                return m if m is not None else go(e["b"], pos, stack)
+            if k == "opt":
+                m = go(e["e"], pos, stack)
+                return pos if m is None else m
+            if k == "rep":
+                cnt = 0
+                while e["max"] is None or cnt < e["max"]:
+                    m = go(e["e"], skip(pos) if cnt else pos, stack)
+                    if m is None or m == pos:
+                        break
+                    pos = m
+                    cnt += 1
+                return pos if cnt >= e["min"] or self.nullable(e["e"]) else None
+            if k == "pos":
+                return pos if go(e["e"], pos, stack) is not None else None
+            if k == "neg":
+                return pos if go(e["e"], pos, stack) is None else None
+            if k == "push":
+                return go(e["e"], pos, stack)
+            return None
+        return go(self.rules[name]["expr"], 0, (name,)) == n
+
+    def strings_under(self, e, stack=()):
+        """string terminals reachable as alternatives of e (through choices and rule references)"""
+        k = e["k"]
+        if k in ("str", "insens"):
+            return [e["s"]]
+        if k == "ident" and e["s"] in self.rules and e["s"] not in stack:
+            return self.strings_under(self.rules[e["s"]]["expr"], stack + (e["s"],))
+        if k == "choice":
+            return self.strings_under(e["a"], stack) + self.strings_under(e["b"], stack)
+        return []
+
+    def _null_seqs(self, e, stack=()):
+        """token sequences e emits while consuming no input (EOI matches empty but still emits its token)"""
+        k = e["k"]
+        if k in ("str", "insens"):
+            return {()} if e["s"] == "" else set()
+        if k == "ident":
+            n = e["s"]
+            if n == "EOI":
+                return {("EOI",)}
+            if n == "SOI":
+                return {()}
+            if n not in self.rules or n in stack:
+                return set()
+            inner = self._null_seqs(self.rules[n]["expr"], stack + (n,))
+            if self.rules[n]["ty"] == "silent":
+                return inner
+            return {(n,)} if inner else set()
+        if k in ("pos", "neg"):
+            return {()}
+        if k == "seq":
+            return {a + b for a in self._null_seqs(e["a"], stack) for b in self._null_seqs(e["b"], stack)}
+        if k == "choice":
+            return self._null_seqs(e["a"], stack) | self._null_seqs(e["b"], stack)
+        if k == "opt":
+            return {()} | self._null_seqs(e["e"], stack)
+        if k == "rep":
+            return ({()} if e["min"] == 0 else set()) | self._null_seqs(e["e"], stack)
+        if k == "push":
+            return self._null_seqs(e["e"], stack)
+        return set()
 
     def alphabet(self, name):
         toks = set()
